@@ -41,18 +41,17 @@ Lemma tbl_ok_sub : forall a b,
   tbl_ok a b.
 Proof. intros a b E Hs. split; [rewrite E; apply N.le_refl|]. intros f' Hf. right. auto. Qed.
 
-Lemma expire_tbl : forall st keep st', Inv st -> expire repaired st keep = Some st' -> tbl_ok st st'.
+Lemma expire_tbl : forall st keep, Inv st -> tbl_ok st (expire repaired st keep).
 Proof.
-  intros st keep st' H He. unfold expire in He.
-  destruct (st_fs st) as [|f fl]; [inversion He; subst; apply tbl_ok_refl|].
-  destruct (f =? 0); [inversion He; subst; apply tbl_ok_same; reflexivity|].
-  destruct (fget f (st_fabs st)) as [fb|] eqn:G; [|discriminate].
-  destruct (fget f (st_kvfabs st)) as [kf|] eqn:K; inversion He; subst st'.
+  intros st keep H. unfold expire.
+  destruct (st_fs st) as [|f fl]; [apply tbl_ok_refl|].
+  destruct (f =? 0); [apply tbl_ok_same; reflexivity|]. cbv zeta.
+  destruct (fget f (st_kvfabs st)) as [kf|] eqn:K.
   - apply tbl_ok_sub; sp; [reflexivity|]. intros x Hx. apply in_app_iff in Hx.
     destruct Hx as [Hx|[<-|[]]].
     + apply In_fdel in Hx. exists x. tauto.
-    + exists fb. split; [apply (fget_In _ _ _ G)|]. symmetry.
-      eapply kv_live; eauto. apply live_fget; exact G.
+    + destruct (fget_In _ _ _ K) as [Hkin _].
+      destruct (live_In _ _ _ (inv_kv _ H kf Hkin)) as (g & Hg & _ & E). eauto.
   - cbn [drop_bound fx_drop_bound fx_expire_sessions repaired]. apply tbl_ok_sub; sp; [reflexivity|].
     intros x Hx. apply In_fdel in Hx. exists x. tauto.
 Qed.
@@ -100,22 +99,18 @@ Proof.
     destruct (fget (s_fab s) (st_fabs st)) as [fb|]; [|apply tbl_ok_refl].
     apply tbl_ok_same; reflexivity.
   - destruct (sess_ctx st sid) as [s|]; [|apply tbl_ok_refl].
-    destruct (s_fab s =? 0); [apply tbl_ok_refl|].
     destruct (negb (allowed st s)); [apply tbl_ok_refl|].
     destruct (i =? 0); [apply tbl_ok_refl|].
     destruct (fget i (st_fabs st)) as [fb|]; [|apply tbl_ok_refl].
     cbn [fst drop_bound fx_drop_bound repaired]. apply tbl_ok_sub; sp; [reflexivity|].
     intros x Hx. apply In_fdel in Hx. exists x. tauto.
-  - destruct (expire repaired st None) as [st'|] eqn:E; [|apply tbl_ok_refl].
-    eapply expire_tbl; eauto.
+  - cbn [fst]. apply expire_tbl; exact H.
   - destruct (sess_ctx st sid) as [s|]; [|apply tbl_ok_refl].
     destruct (negb (allowed st s)); [apply tbl_ok_refl|].
-    destruct (expire repaired st (Some (s_id s))) as [st'|] eqn:E; [|apply tbl_ok_refl].
-    eapply expire_tbl; eauto.
+    cbn [fst]. apply expire_tbl; exact H.
   - destruct (sess_ctx st sid) as [s|]; [|apply tbl_ok_refl].
     destruct (negb (allowed st s)); [apply tbl_ok_refl|].
-    destruct (expire repaired st (Some (s_id s))) as [st'|] eqn:E; [|apply tbl_ok_refl].
-    eapply expire_tbl; eauto.
+    cbn [fst]. apply expire_tbl; exact H.
   - destruct (find _ _) as [f|]; [|apply tbl_ok_refl]. unfold establish.
     destruct (table_full st); [apply tbl_ok_refl|]. apply tbl_ok_same; reflexivity.
   - destruct (fget i (st_fabs st)) as [f|]; [|apply tbl_ok_refl]. unfold establish.
@@ -197,19 +192,18 @@ Theorem removed_is_gone :
 Proof.
   intros st sid i f H G Hok. unfold step in *. cbn [step_fx] in *.
   destruct (sess_ctx st sid) as [s|]; [|discriminate Hok].
-  destruct (s_fab s =? 0); [discriminate Hok|].
   destruct (negb (allowed st s)); [discriminate Hok|].
   destruct (i =? 0); [discriminate Hok|]. rewrite G in *.
   cbn [fst drop_bound fx_drop_bound repaired]. unfold gone; sp. apply gone_fdel; assumption.
 Qed.
 
-Lemma expire_rollback : forall st keep i fl f,
-  st_fs st = Armed i fl -> i <> 0 -> fget i (st_fabs st) = Some f -> fget i (st_kvfabs st) = None ->
-  exists st', expire repaired st keep = Some st' /\ st_fabs st' = fdel i (st_fabs st) /\
-              st_ninc st' = st_ninc st.
+Lemma expire_rollback : forall st keep i fl,
+  st_fs st = Armed i fl -> i <> 0 -> fget i (st_kvfabs st) = None ->
+  st_fabs (expire repaired st keep) = fdel i (st_fabs st) /\
+  st_ninc (expire repaired st keep) = st_ninc st.
 Proof.
-  intros st keep i fl f Efs Hi G K. unfold expire. rewrite Efs. apply N.eqb_neq in Hi. rewrite Hi, G, K.
-  eexists. split; [reflexivity|]. cbn [drop_bound fx_drop_bound repaired]. sp. auto.
+  intros st keep i fl Efs Hi K. unfold expire. rewrite Efs. apply N.eqb_neq in Hi. rewrite Hi. cbv zeta.
+  rewrite K. cbn [drop_bound fx_drop_bound repaired]. sp. auto.
 Qed.
 
 Theorem rolled_back_is_gone :
@@ -223,15 +217,13 @@ Proof.
                     gone st' (f_inc f)).
   { intros st' E1 E2. unfold gone. rewrite E1, E2. apply gone_fdel; assumption. }
   destruct o; try discriminate Ho; unfold step in *; cbn [step_fx] in *.
-  - destruct (expire_rollback st None i fl f Efs Hi G K) as (st' & E & E1 & E2). rewrite E. cbn [fst]. auto.
+  - destruct (expire_rollback st None i fl Efs Hi K) as (E1 & E2). cbn [fst]. auto.
   - destruct (sess_ctx st s) as [ss|]; [|discriminate Hok].
     destruct (negb (allowed st ss)); [discriminate Hok|].
-    destruct (expire_rollback st (Some (s_id ss)) i fl f Efs Hi G K) as (st' & E & E1 & E2).
-    rewrite E. cbn [fst]. auto.
+    destruct (expire_rollback st (Some (s_id ss)) i fl Efs Hi K) as (E1 & E2). cbn [fst]. auto.
   - destruct (sess_ctx st s) as [ss|]; [|discriminate Hok].
     destruct (negb (allowed st ss)); [discriminate Hok|].
-    destruct (expire_rollback st (Some (s_id ss)) i fl f Efs Hi G K) as (st' & E & E1 & E2).
-    rewrite E. cbn [fst]. auto.
+    destruct (expire_rollback st (Some (s_id ss)) i fl Efs Hi K) as (E1 & E2). cbn [fst]. auto.
 Qed.
 
 Theorem index_reuse_safe :
@@ -324,19 +316,18 @@ Proof.
   apply N.eqb_eq in E. destruct (sget_In _ _ _ G) as [G1 G2]. eauto.
 Qed.
 
-Lemma expire_frame : forall st keep st' f fl,
-  Inv st -> st_fs st = Armed f fl -> expire repaired st keep = Some st' ->
-  others_sess f true (st_sess st') = others_sess f true (st_sess st) /\
-  others_recs f (st_recs st') = others_recs f (st_recs st) /\
-  others_subs f (st_subs st') = others_subs f (st_subs st) /\
-  fdel f (st_fabs st') = fdel f (st_fabs st) /\
-  fdel f (st_kvfabs st') = fdel f (st_kvfabs st).
+Lemma expire_frame : forall st keep f fl,
+  Inv st -> st_fs st = Armed f fl ->
+  others_sess f true (st_sess (expire repaired st keep)) = others_sess f true (st_sess st) /\
+  others_recs f (st_recs (expire repaired st keep)) = others_recs f (st_recs st) /\
+  others_subs f (st_subs (expire repaired st keep)) = others_subs f (st_subs st) /\
+  fdel f (st_fabs (expire repaired st keep)) = fdel f (st_fabs st) /\
+  fdel f (st_kvfabs (expire repaired st keep)) = fdel f (st_kvfabs st).
 Proof.
-  intros st keep st' f fl H Efs He. unfold expire in He. rewrite Efs in He.
+  intros st keep f fl H Efs. unfold expire. rewrite Efs.
   destruct (f =? 0) eqn:E0.
-  { inversion He; subst st'. sp. rewrite rp_frame. auto. }
-  destruct (fget f (st_fabs st)) as [fb|] eqn:G; [|discriminate].
-  destruct (fget f (st_kvfabs st)) as [kf|] eqn:K; inversion He; subst st'.
+  { sp. rewrite rp_frame. auto. }
+  cbv zeta. destruct (fget f (st_kvfabs st)) as [kf|] eqn:K.
   - sp. rewrite rp_frame. repeat split; auto.
     rewrite fdel_app_same; [apply fdel_fdel|apply (fget_In _ _ _ K)].
   - cbn [drop_bound fx_drop_bound fx_expire_sessions repaired]. sp. repeat split.
@@ -360,7 +351,6 @@ Proof.
   - (* ORemove *)
     inversion Hr; subst.
     destruct (sess_ctx st s) as [ss|] eqn:C; [|discriminate Hs].
-    destruct (s_fab ss =? 0); [discriminate Hs|].
     destruct (negb (allowed st ss)); [discriminate Hs|].
     destruct (i =? 0); [discriminate Hs|].
     destruct (fget i (st_fabs st)) as [fb|]; [|discriminate Hs].
@@ -375,20 +365,17 @@ Proof.
     + apply fdel_fdel.
   - (* OTimeout *)
     destruct (st_fs st) as [|f fl] eqn:Efs; [discriminate Hr|]. inversion Hr; subst.
-    destruct (expire repaired st None) as [st1|] eqn:E; [|discriminate Hs].
-    inversion Hs; subst st1. eapply expire_frame; eauto.
+    inversion Hs; subst st'. eapply expire_frame; eauto.
   - (* OArm0 *)
     destruct (st_fs st) as [|f fl] eqn:Efs; [discriminate Hr|]. inversion Hr; subst.
     destruct (sess_ctx st s) as [ss|]; [|discriminate Hs].
     destruct (negb (allowed st ss)); [discriminate Hs|].
-    destruct (expire repaired st (Some (s_id ss))) as [st1|] eqn:E; [|discriminate Hs].
-    inversion Hs; subst st1. eapply expire_frame; eauto.
+    inversion Hs; subst st'. eapply expire_frame; eauto.
   - (* ORevoke *)
     destruct (st_fs st) as [|f fl] eqn:Efs; [discriminate Hr|]. inversion Hr; subst.
     destruct (sess_ctx st s) as [ss|]; [|discriminate Hs].
     destruct (negb (allowed st ss)); [discriminate Hs|].
-    destruct (expire repaired st (Some (s_id ss))) as [st1|] eqn:E; [|discriminate Hs].
-    inversion Hs; subst st1. eapply expire_frame; eauto.
+    inversion Hs; subst st'. eapply expire_frame; eauto.
 Qed.
 
 (** ** The executable forms *)
